@@ -1,10 +1,24 @@
 //! C32 — Join reordering never introduces a cross product.
 //!
-//! Generator: 2–7 distinct tables (table-unique column names, BIGINT columns,
-//! small domains, skewed sizes) and a CONNECTED equality graph over them:
+//! Generator: 2–7 distinct tables (table-unique column names, small domains,
+//! skewed sizes) and a CONNECTED equality graph over them:
 //! a random spanning tree (chains and stars fall out of the parent choice) plus
 //! extra edges (cycles, cliques), single- or two-column (composite) edges,
 //! extra non-equality predicates between two relations or on one relation.
+//! A fifth of the cases keep all columns BIGINT and every equality `col = col`;
+//! in the others (sparse: few wrapped equalities next to plain ones; dense: most
+//! of them) the columns are BIGINT / INTEGER / DOUBLE and each side of an
+//! equality may be wrapped in the value-preserving forms the optimizer's column
+//! extraction has to see through: CAST to the common key type (INTEGER key =
+//! CAST(.. AS BIGINT), both sides CAST to DOUBLE, a redundant CAST, a narrowing
+//! CAST(.. AS INTEGER)), arithmetic with a neutral constant (`x + 0`, `0 + x`,
+//! `x - 0`, `x * 1`, `1 * x`) on top of it, and unary minus on both sides.
+//! The two sides of an equality always have the same type by construction (the
+//! engine does not coerce mixed-width join keys), composite edges draw the
+//! wrappers of each column pair independently (wrapped next to plain).
+//! The join graph is the one the CASE defines (its `edges`), never anything
+//! extracted from the engine's expressions: a wrapped equality is an edge
+//! between the relations of its two columns exactly like a plain one.
 //! The statement is written with the relations in a scrambled order as comma
 //! joins + WHERE, as an explicit INNER/CROSS JOIN chain (ON = the predicates
 //! whose relations are already in the chain, the rest in WHERE), or a mix.
@@ -58,6 +72,100 @@ pub struct JoinCase {
     pub explicit: Vec<bool>,
     pub select: Vec<(usize, usize)>,
     pub layouts: Vec<ParquetLayout>,
+    /// per edge (same index as `edges`): the wrappers of the left and of the right key,
+    /// applied inside-out (see `W_*`); absent/short = plain columns
+    #[serde(default)]
+    pub wraps: Vec<(Vec<u8>, Vec<u8>)>,
+}
+
+/// `CAST(x AS BIGINT)`
+pub const W_CAST_BIGINT: u8 = 1;
+/// `CAST(x AS DOUBLE)`
+pub const W_CAST_DOUBLE: u8 = 2;
+/// `(x + 0)`
+pub const W_PLUS0: u8 = 3;
+/// `(x * 1)`
+pub const W_TIMES1: u8 = 4;
+/// `(x - 0)`
+pub const W_MINUS0: u8 = 5;
+/// `(-x)`
+pub const W_NEG: u8 = 6;
+/// `(0 + x)`
+pub const W_0PLUS: u8 = 7;
+/// `(1 * x)`
+pub const W_1TIMES: u8 = 8;
+/// `CAST(x AS INTEGER)`
+pub const W_CAST_INT32: u8 = 9;
+
+fn is_cast_op(op: u8) -> bool {
+    matches!(op, W_CAST_BIGINT | W_CAST_DOUBLE | W_CAST_INT32)
+}
+fn is_arith_op(op: u8) -> bool {
+    matches!(op, W_PLUS0 | W_TIMES1 | W_MINUS0 | W_0PLUS | W_1TIMES)
+}
+
+fn wrap_sql(base: String, ops: &[u8]) -> String {
+    let mut s = base;
+    for op in ops {
+        s = match *op {
+            W_CAST_BIGINT => format!("CAST({} AS BIGINT)", s),
+            W_CAST_DOUBLE => format!("CAST({} AS DOUBLE)", s),
+            W_CAST_INT32 => format!("CAST({} AS INTEGER)", s),
+            W_PLUS0 => format!("({} + 0)", s),
+            W_TIMES1 => format!("({} * 1)", s),
+            W_MINUS0 => format!("({} - 0)", s),
+            W_NEG => format!("(-{})", s),
+            W_0PLUS => format!("(0 + {})", s),
+            W_1TIMES => format!("(1 * {})", s),
+            _ => s,
+        };
+    }
+    s
+}
+
+fn edge_wraps(c: &JoinCase, i: usize) -> (&[u8], &[u8]) {
+    match c.wraps.get(i) {
+        Some((a, b)) => (a.as_slice(), b.as_slice()),
+        None => (&[], &[]),
+    }
+}
+
+/// is the graph over `n` relations connected when only the edges selected by `keep` are used?
+/// (the harness's own graph, built from the case's edge list)
+fn connected_with(c: &JoinCase, keep: &dyn Fn(usize) -> bool) -> bool {
+    let n = c.tables.len();
+    if n == 0 {
+        return true;
+    }
+    let mut comp: Vec<usize> = (0..n).collect();
+    fn root(comp: &mut Vec<usize>, x: usize) -> usize {
+        let mut r = x;
+        while comp[r] != r {
+            r = comp[r];
+        }
+        comp[x] = r;
+        r
+    }
+    for (i, (ra, _, rb, _)) in c.edges.iter().enumerate() {
+        if keep(i) {
+            let (x, y) = (root(&mut comp, *ra), root(&mut comp, *rb));
+            if x != y {
+                comp[x] = y;
+            }
+        }
+    }
+    let r0 = root(&mut comp, 0);
+    (1..n).all(|i| root(&mut comp, i) == r0)
+}
+
+/// some wrapper selected by `pick` sits on an edge side, and the graph falls apart
+/// when every edge carrying such a wrapper is ignored
+fn bridge_of(c: &JoinCase, pick: &dyn Fn(u8) -> bool) -> bool {
+    let has = |i: usize| {
+        let (a, b) = edge_wraps(c, i);
+        a.iter().chain(b.iter()).any(|op| pick(*op))
+    };
+    (0..c.edges.len()).any(|i| has(i)) && !connected_with(c, &|i| !has(i))
 }
 
 fn col_name(c: &JoinCase, rc: (usize, usize)) -> String {
@@ -71,8 +179,9 @@ fn op_sql(op: u8) -> &'static str {
 pub fn render(c: &JoinCase) -> String {
     // predicates as (relations involved, text)
     let mut preds: Vec<(BTreeSet<usize>, String)> = vec![];
-    for (ra, ca, rb, cb) in &c.edges {
-        preds.push(([*ra, *rb].into_iter().collect(), format!("({} = {})", col_name(c, (*ra, *ca)), col_name(c, (*rb, *cb)))));
+    for (i, (ra, ca, rb, cb)) in c.edges.iter().enumerate() {
+        let (wa, wb) = edge_wraps(c, i);
+        preds.push(([*ra, *rb].into_iter().collect(), format!("({} = {})", wrap_sql(col_name(c, (*ra, *ca)), wa), wrap_sql(col_name(c, (*rb, *cb)), wb))));
     }
     for p in &c.noneq {
         match p.b {
@@ -180,12 +289,54 @@ fn cname(e: &qp::Expr) -> Option<String> {
     }
 }
 
-/// `CAST(a) * K + CAST(b)` → (a, b)
-fn packed(e: &qp::Expr) -> Option<(String, String)> {
+fn lit_f64(e: &qp::Expr) -> Option<f64> {
+    match strip(e) {
+        qp::Expr::Literal(v) => format!("{}", v).trim().parse::<f64>().ok(),
+        _ => None,
+    }
+}
+
+/// The column a (possibly wrapped) equality side stands for, and whether it is negated.
+/// Sees through exactly the value-preserving wrappers the generator writes — CAST / alias,
+/// `x + 0`, `0 + x`, `x - 0`, `x * 1`, `1 * x`, unary minus — so an optimizer that keeps
+/// the wrapper, moves it or folds the neutral constant away is accepted alike; any other
+/// expression is not a key.
+fn peel(e: &qp::Expr) -> Option<(String, bool)> {
+    match e {
+        qp::Expr::Cast { expr, .. } | qp::Expr::Alias { expr, .. } => peel(expr),
+        qp::Expr::Column(c) => Some((c.name.to_lowercase(), false)),
+        qp::Expr::UnaryExpr { op: qp::UnaryOp::Negate, expr } => peel(expr).map(|(c, n)| (c, !n)),
+        qp::Expr::BinaryExpr { left, op, right } => {
+            let (l, r) = (lit_f64(left), lit_f64(right));
+            match op {
+                qp::BinaryOp::Add if r == Some(0.0) => peel(left),
+                qp::BinaryOp::Add if l == Some(0.0) => peel(right),
+                qp::BinaryOp::Subtract if r == Some(0.0) => peel(left),
+                qp::BinaryOp::Multiply if r == Some(1.0) => peel(left),
+                qp::BinaryOp::Multiply if l == Some(1.0) => peel(right),
+                _ => None,
+            }
+        }
+        _ => None,
+    }
+}
+
+/// `l = r` as an equality of two columns (both sides negated or neither)
+fn eq_cols(l: &qp::Expr, r: &qp::Expr) -> Option<(String, String)> {
+    let ((a, na), (b, nb)) = (peel(l)?, peel(r)?);
+    if na == nb {
+        Some((a, b))
+    } else {
+        None
+    }
+}
+
+/// `CAST(a) * K + CAST(b)` → (a, b) (each with its negation flag)
+fn packed(e: &qp::Expr) -> Option<((String, bool), (String, bool))> {
     if let qp::Expr::BinaryExpr { left, op: qp::BinaryOp::Add, right } = strip(e) {
         if let qp::Expr::BinaryExpr { left: a, op: qp::BinaryOp::Multiply, right: k } = strip(left) {
             if matches!(strip(k), qp::Expr::Literal(_)) {
-                return Some((cname(a)?, cname(right)?));
+                return Some((peel(a)?, peel(right)?));
             }
         }
     }
@@ -297,11 +448,13 @@ pub fn validate(c: &JoinCase, plan: &LogicalPlan) -> Result<(), String> {
                 if !((side(l, &ls) && side(r, &rs)) || (side(l, &rs) && side(r, &ls))) {
                     v5 = Some(format!("V5: join condition {} = {} does not take one side from each input", l, r));
                 }
-                if let (Some(a), Some(b)) = (cname(l), cname(r)) {
+                if let Some((a, b)) = eq_cols(l, r) {
                     opt.union(&a, &b);
                 } else if let (Some((a1, a2)), Some((b1, b2))) = (packed(l), packed(r)) {
-                    opt.union(&a1, &b1);
-                    opt.union(&a2, &b2);
+                    if a1.1 == b1.1 && a2.1 == b2.1 {
+                        opt.union(&a1.0, &b1.0);
+                        opt.union(&a2.0, &b2.0);
+                    }
                 }
             }
         }
@@ -315,7 +468,7 @@ pub fn validate(c: &JoinCase, plan: &LogicalPlan) -> Result<(), String> {
             conjuncts(e, &mut cs);
             for cj in cs {
                 if let qp::Expr::BinaryExpr { left, op: qp::BinaryOp::Eq, right } = cj {
-                    if let (Some(a), Some(b)) = (cname(left), cname(right)) {
+                    if let Some((a, b)) = eq_cols(left, right) {
                         opt.union(&a, &b);
                         continue;
                     }
@@ -380,6 +533,80 @@ fn max_rows_for(n: usize, thorough: bool) -> usize {
     }
 }
 
+/// type of a wrapped key: the last CAST decides, the other wrappers keep the type
+fn wrapped_type(base: ColType, ops: &[u8]) -> ColType {
+    let mut t = base;
+    for op in ops {
+        t = match *op {
+            W_CAST_BIGINT => ColType::Int,
+            W_CAST_DOUBLE => ColType::Double,
+            W_CAST_INT32 => ColType::Int32,
+            _ => t,
+        };
+    }
+    t
+}
+
+/// Wrappers for the two sides of `ta_col = tb_col`, chosen so that both sides end with the
+/// same type: a CAST where a side's type is not the common key type (or, rarely, a
+/// redundant one), then at most one arithmetic wrapper with a neutral constant (only on
+/// BIGINT / DOUBLE values: literal arithmetic on an INTEGER value has no type the two
+/// sides could be relied on to share), then unary minus on both sides or on neither.
+/// Selector 0 everywhere = the plain column (what shrinking converges to).
+fn build_wraps(ta: ColType, tb: ColType, sel: (u8, u8, u8, u8), sparse: bool) -> (Vec<u8>, Vec<u8>) {
+    // sparse: two equalities in three carry only the CAST their column types force
+    let (tsel, sa, sb, ex) = if sparse && sel.3 % 3 != 1 { (0, 0, 0, 0) } else { sel };
+    let target = match (ta, tb) {
+        (ColType::Double, _) | (_, ColType::Double) => ColType::Double,
+        (ColType::Int32, ColType::Int32) => match tsel % 4 {
+            0 | 1 => ColType::Int32,
+            2 => ColType::Int,
+            _ => ColType::Double,
+        },
+        (ColType::Int, ColType::Int) => {
+            if tsel % 4 == 3 {
+                ColType::Double
+            } else {
+                ColType::Int
+            }
+        }
+        // INTEGER key against BIGINT key: widen (mostly), go through DOUBLE, or narrow
+        _ => match tsel % 6 {
+            0..=3 => ColType::Int,
+            4 => ColType::Double,
+            _ => ColType::Int32,
+        },
+    };
+    let cast_to = match target {
+        ColType::Int => W_CAST_BIGINT,
+        ColType::Double => W_CAST_DOUBLE,
+        _ => W_CAST_INT32,
+    };
+    let side = |t: ColType, s: u8| -> Vec<u8> {
+        let mut ops = vec![];
+        if t != target || s % 8 == 7 {
+            ops.push(cast_to);
+        }
+        if target != ColType::Int32 {
+            match s % 8 {
+                1 => ops.push(W_PLUS0),
+                2 => ops.push(W_TIMES1),
+                3 => ops.push(W_MINUS0),
+                4 => ops.push(W_0PLUS),
+                5 => ops.push(W_1TIMES),
+                _ => {}
+            }
+        }
+        ops
+    };
+    let (mut a, mut b) = (side(ta, sa), side(tb, sb));
+    if target != ColType::Int32 && ex % 6 == 5 {
+        a.push(W_NEG);
+        b.push(W_NEG);
+    }
+    (a, b)
+}
+
 fn join_case(tier: Tier) -> BoxedStrategy<JoinCase> {
     let thorough = tier == Tier::Thorough;
     (2usize..=7)
@@ -399,19 +626,43 @@ fn join_case(tier: Tier) -> BoxedStrategy<JoinCase> {
                 (0u8..3, proptest::collection::vec(any::<bool>(), n)),
                 proptest::collection::vec(parquet_layout_strategy(mr), n),
                 (0u8..4, any::<bool>()),
+                // key forms: 0 = all BIGINT and `col = col` only; 1, 2 = sparse (mostly BIGINT columns, few
+                // wrapped equalities next to plain ones); 3, 4 = dense (typed columns, most equalities wrapped)
+                (0u8..5, proptest::collection::vec(proptest::collection::vec(0u8..5, 3), n)),
+                proptest::collection::vec((any::<u8>(), any::<u8>(), any::<u8>(), any::<u8>()), 3 * n + 2),
             )
         })
-        .prop_map(|(tspec, parents, extra, colpicks, noneq_spec, order_sel, (style, mask), layouts, (shape, composite))| {
+        .prop_map(|(tspec, parents, extra, colpicks, noneq_spec, order_sel, (style, mask), layouts, (shape, composite), (forms, tysel), wrapsel)| {
             let n = tspec.len();
             let letters = ["a", "b", "c"];
+            let col_ty = |i: usize, k: usize| -> ColType {
+                if forms == 0 {
+                    return ColType::Int;
+                }
+                match (forms, tysel[i][k]) {
+                    (1, 0..=3) | (2, 0..=2) | (_, 0..=1) => ColType::Int,
+                    (1, _) => ColType::Int32,
+                    (_, 4) => ColType::Double,
+                    _ => ColType::Int32,
+                }
+            };
             let tables: Vec<Table> = tspec
                 .iter()
                 .enumerate()
                 .map(|(i, (rows, cells, ncols))| {
                     let name = format!("j{}", i);
                     Table {
-                        cols: (0..*ncols).map(|k| Column { name: format!("{}{}", name, letters[k]), ty: ColType::Int }).collect(),
-                        rows: (0..*rows).map(|r| (0..*ncols).map(|k| Value::Int(cells[r][k])).collect()).collect(),
+                        cols: (0..*ncols).map(|k| Column { name: format!("{}{}", name, letters[k]), ty: col_ty(i, k) }).collect(),
+                        rows: (0..*rows)
+                            .map(|r| {
+                                (0..*ncols)
+                                    .map(|k| match col_ty(i, k) {
+                                        ColType::Double => Value::Double(cells[r][k] as f64),
+                                        _ => Value::Int(cells[r][k]),
+                                    })
+                                    .collect()
+                            })
+                            .collect(),
                         name,
                     }
                 })
@@ -444,17 +695,37 @@ fn join_case(tier: Tier) -> BoxedStrategy<JoinCase> {
                 }
             }
             edges.dedup();
+            // key forms of every column pair (independently: composite edges mix wrapped and plain)
+            let ty = |rc: (usize, usize)| tables[rc.0].cols[rc.1].ty;
+            let wraps: Vec<(Vec<u8>, Vec<u8>)> = edges
+                .iter()
+                .enumerate()
+                .map(|(i, (ra, ca, rb, cb))| {
+                    if forms == 0 {
+                        (vec![], vec![])
+                    } else {
+                        build_wraps(ty((*ra, *ca)), ty((*rb, *cb)), wrapsel.get(i).copied().unwrap_or((0, 0, 0, 0)), forms <= 2)
+                    }
+                })
+                .collect();
+            // a non-equality predicate compares two columns of one type, or an integer column with
+            // an integer literal (its subject is the plan shape, not comparison coercion): take the
+            // next column of the relation that fits, drop the predicate when there is none
+            let fit = |r: usize, start: usize, ok: &dyn Fn(ColType) -> bool| -> Option<usize> { (0..ncols(r)).map(|d| (start + d) % ncols(r)).find(|k| ok(tables[r].cols[*k].ty)) };
             let noneq: Vec<NonEq> = noneq_spec
                 .into_iter()
-                .map(|(a, b, op, s1, s2, binary, lit)| {
+                .filter_map(|(a, b, op, s1, s2, binary, lit)| {
                     let (ra, rb) = (pick_idx(a, n), pick_idx(b, n));
-                    NonEq {
-                        a: (ra, pick_idx(s1, ncols(ra))),
-                        op,
-                        // (a literal filter on one relation mostly triggers the known
-                        // projected-relation finding: keep it for a quarter of the predicates)
-                        b: if (binary || lit != 0) && ra != rb { Some((rb, pick_idx(s2, ncols(rb)))) } else { None },
-                        lit,
+                    let ca = pick_idx(s1, ncols(ra));
+                    // (a literal filter on one relation mostly triggers the known
+                    // projected-relation finding: keep it for a quarter of the predicates)
+                    if (binary || lit != 0) && ra != rb {
+                        let ta = tables[ra].cols[ca].ty;
+                        let cb = fit(rb, pick_idx(s2, ncols(rb)), &|t| t == ta)?;
+                        Some(NonEq { a: (ra, ca), op, b: Some((rb, cb)), lit })
+                    } else {
+                        let ca = fit(ra, ca, &|t| t.is_int())?;
+                        Some(NonEq { a: (ra, ca), op, b: None, lit })
                     }
                 })
                 .collect();
@@ -472,7 +743,7 @@ fn join_case(tier: Tier) -> BoxedStrategy<JoinCase> {
             let r1 = pick_idx(s1, n);
             let r2 = pick_idx(s2, n);
             let select = vec![(r1, 0), (r2, ncols(r2) - 1)];
-            JoinCase { tables, order, edges, noneq, explicit, select, layouts }
+            JoinCase { tables, order, edges, noneq, explicit, select, layouts, wraps }
         })
         .boxed()
 }
@@ -521,7 +792,7 @@ impl Check for ReorderKeepsGraph {
         ">=4 relations and the written order of the relations needs a cross product (some relation has no equality edge to any earlier one)"
     }
     fn cases(&self, tier: Tier) -> u32 {
-        tier.pick(800, 30_000)
+        tier.pick(1200, 30_000)
     }
     fn strategy(&self, tier: Tier) -> BoxedStrategy<JoinCase> {
         join_case(tier)
@@ -542,6 +813,43 @@ impl Check for ReorderKeepsGraph {
         obs.nontrivial(n >= 4 && needs_cross);
         if needs_cross {
             obs.label("written_order_needs_cross");
+        }
+        // key forms (all derived from the case: the graph is the statement's, not the engine's)
+        let all_ops = || (0..c.edges.len()).flat_map(|i| {
+            let (a, b) = edge_wraps(c, i);
+            a.iter().chain(b.iter()).copied().collect::<Vec<u8>>()
+        });
+        if all_ops().next().is_none() {
+            obs.label("keys:all_plain");
+        } else {
+            for (name, pick) in [("cast", &is_cast_op as &dyn Fn(u8) -> bool), ("arith", &is_arith_op), ("neg", &|op| op == W_NEG), ("any_wrapper", &|_| true)] {
+                if all_ops().any(|op| pick(op)) {
+                    obs.label(format!("keys:{}", name));
+                    // the graph is connected only through edges with such a wrapper
+                    if bridge_of(c, pick) {
+                        // (counted per kind: a seeded loss of one extraction arm disconnects exactly these graphs)
+                        obs.label(format!("keys:{}_is_bridge", name));
+                        if needs_cross {
+                            obs.label(format!("keys:{}_is_bridge+written_order_needs_cross", name));
+                        }
+                    }
+                }
+            }
+            let mut per_pair: BTreeMap<(usize, usize), (bool, bool)> = BTreeMap::new();
+            for (i, (ra, _, rb, _)) in c.edges.iter().enumerate() {
+                let (a, b) = edge_wraps(c, i);
+                let e = per_pair.entry((*ra.min(rb), *ra.max(rb))).or_insert((false, false));
+                if a.is_empty() && b.is_empty() {
+                    e.0 = true;
+                } else {
+                    e.1 = true;
+                }
+            }
+            if per_pair.values().any(|(plain, wrapped)| *plain && *wrapped) {
+                obs.label("keys:composite_mixes_wrapped_and_plain");
+            }
+            let tys: BTreeSet<String> = c.edges.iter().flat_map(|(ra, ca, rb, cb)| [format!("{:?}", c.tables[*ra].cols[*ca].ty), format!("{:?}", c.tables[*rb].cols[*cb].ty)]).collect();
+            obs.label(format!("keytypes:{}", tys.into_iter().collect::<Vec<_>>().join("+")));
         }
         obs.sample(serde_json::json!({ "sql": sql }));
         let mut mem = ExecutionContext::new();
@@ -646,6 +954,8 @@ pub fn property() -> Property {
         assumptions: &[
             "column names are table-unique in the generated schemas, so equality classes are compared on bare column names",
             "a reorder that joins through an implied equality (same equivalence class) is accepted; a PackedJoinKeys pair counts as its two column equalities",
+            "the wrappers written around join keys (CAST to the common key type, + 0, 0 +, - 0, * 1, 1 *, unary minus on both sides) preserve the value on the generated data (0..3), so a wrapped equality is the same join-graph edge and the same column equality as the plain one; the graph comes from the case's edge list, and the plan side peels exactly these forms with the harness's own walker",
+            "both sides of a written equality have the same type by construction; a non-equality predicate compares two columns of one type or an integer column with an integer literal",
             "answer equality is checked when the cross product of the table sizes is at most 40 000 rows (the unoptimized plan of a comma join materialises it)",
         ],
         checks: vec![Box::new(ReorderKeepsGraph)],
